@@ -1018,7 +1018,7 @@ func TestC20(t *testing.T) {
 	nStore := r.N(1500, 30000)
 	nMonthSmall := r.N(1400, 14000)
 	nMonthLarge := r.N(70, 1400)
-	nMonthStore := r.N(360, 3600)
+	nMonthStore := r.N(600, 6000)
 
 	types := []byte{'f', 'i', 'u', 's', 'b'}
 	caseNo := 0
@@ -1600,7 +1600,7 @@ func c20StoreStream(t *testing.T, r *vkit.Run, n int) {
 // several shards per series; every series' rows are compared with the fold of what
 // Store.ReadFilter returns for the same range.
 func c20MonthStoreStream(t *testing.T, r *vkit.Run, n int) {
-	per := r.N(60, 120)
+	per := r.N(60, 100)
 	for done, envNo := 0, 0; done < n; envNo++ {
 		rg := r.SubRand("month-store-env", envNo)
 		ds := c41GenMonthDataset(rg, envNo)
